@@ -309,3 +309,64 @@ def run(ctx):
                 good = False
         ctx.ob("C04.reader", "size_hint", good, "; ".join(desc), site=ctx.site_of(F, f["def"]), key="C04.reader|size_hint")
     ctx.ob("C04.reader", "one entry per item", True, "decided by C14.one (same facts)", trivial=True)
+    # --- adaptors overridden by the iterator -------------------------------------------------------
+    ctx.rule("C04.adaptors", "iteration is the same with and without an index also through the adaptors: the shape iterator overrides no "
+                             "Iterator method besides next and size_hint, or an overridden nth(n) consumes exactly n + 1 index entries on "
+                             "every path that yields an item (expected count on this tree: 1 instance, 'nothing overridden')", floor=1)
+    from .C14 import index_field
+    idxf = index_field(F)
+    extra = []
+    for imp in F.trait_impls("std::iter::Iterator"):
+        if imp["self_ty"].startswith("reader::ShapeIterator"):
+            extra = [m for m in imp["methods"] if m["name"] not in ("next", "size_hint")]
+    if not extra:
+        ctx.ob("C04.adaptors", "ShapeIterator overrides", True, "only next and size_hint are defined: every adaptor is std's, built on next",
+               key="C04.adaptors|none")
+    for m in extra:
+        g = F.fns.get(m["key"])
+        inst = "ShapeIterator::%s" % m["name"]
+        if m["name"] != "nth" or g is None:
+            ctx.unanalysable("C04.adaptors", inst, "an overridden Iterator::%s is not decided by this rule" % m["name"])
+            continue
+        try:
+            ps, _ = util.run_fn(F, g)
+        except absint.Unanalysable as e:
+            ctx.unanalysable("C04.adaptors", inst, str(e))
+            continue
+        bad = set()
+        for p in ps:
+            if p.status != 'return' or not is_agg(p.ret, None, 'Some'):
+                continue
+            if not any(t == ('discr', ('load', (wm.SELF, (('f', idxf),)))) and v == 1 for t, v in p.cons):
+                continue                # index-less path: positions are consumed by reading (C03.stop)
+            total = {(): 0}
+            seen = set()
+            for e in absint.flat_effects(p.eff):
+                if e[0] == 'call' and e[1] == 'std::iter::Iterator::nth' and e[3] and ('.%s' % idxf) in absint.term_str(e[3][0]):
+                    try:
+                        total = affine.add(total, affine.add(affine.lin(e[3][1]), {(): 1}))
+                    except affine.NotAffine:
+                        bad.add("entries skipped by a non-affine amount")
+            for t, v in list(p.cons) + [(p.ret, None)]:
+                for x in absint.subterms(t):
+                    if isinstance(x, tuple) and x and x[0] == 'next' and ('.%s' % idxf) in absint.term_str(x[1]) and x not in seen:
+                        seen.add(x)
+                        total = affine.add(total, {(): 1})
+            want = affine.add(affine.lin(('param', 2)), {(): 1})
+            # a path taken for one particular n (nth(0) special-cased): evaluate both sides at that n
+            nval = None
+            for t, v in p.cons:
+                if t == ('param', 2) and isinstance(v, int):
+                    nval = v
+                if t[0] == 'bin' and t[1] == 'Eq' and ('param', 2) in (t[2], t[3]) and (v != 0 if isinstance(v, int) else True):
+                    o = t[3] if t[2] == ('param', 2) else t[2]
+                    if o[0] == 'int':
+                        nval = o[1]
+            if nval is not None:
+                sub = lambda form: {(): sum(c * (1 if k == () else nval) for k, c in form.items())} if all(
+                    k == () or 'arg2' in affine.show({k: 1}) for k in form) else form
+                total, want = sub(total), sub(want)
+            if {k: v for k, v in total.items() if v} != {k: v for k, v in want.items() if v}:
+                bad.add("an item path consumes %s index entries, nth(n) must consume n + 1" % affine.show(total))
+        ctx.ob("C04.adaptors", inst, not bad, "; ".join(sorted(bad)) or "nth(n) consumes n + 1 index entries on every item path",
+               site=ctx.site_of(F, g["def"]), key="C04.adaptors|nth")
